@@ -63,4 +63,22 @@ def yamlUnsafe (s : Str) : Bool :=
    | 0xE2 :: 0x80 :: 0xA9 :: _ => true
    | _ => false)
 
+mutual
+/-- every string of a document: string values and member names -/
+def jvalStrings : JVal → List Str
+  | .str s => [s]
+  | .arr items => jlistStrings items
+  | .obj members => jmembersStrings members
+  | _ => []
+def jlistStrings : JList → List Str
+  | .nil => []
+  | .cons v rest => jvalStrings v ++ jlistStrings rest
+def jmembersStrings : JMembers → List Str
+  | .nil => []
+  | .cons k v rest => k :: (jvalStrings v ++ jmembersStrings rest)
+end
+
+/-- the strings a Spec file holds -/
+def specStrings (s : Spec) : List Str := jvalStrings (Encode.encodeSpec s)
+
 end Cdi.Codec
